@@ -6,13 +6,14 @@
 (* stalled (stall_ms > 150) were repeated by the harness and are not judged here.   *)
 (* "deadline" events: a waiter whose context carries a deadline.  change = none: nothing happens to the key - the call       *)
 (* returns the context's error, and the context IS done when it returns (never a little early "because the next poll would   *)
-(* come too late"); change = expire: the record runs out long before the deadline - ErrNotExist within Bound of the expiry.   *)
+(* come too late"); change = expire: the record runs out long before the deadline - ErrNotExist within Bound of the expiry  *)
+(* (expire2: another waiter had registered first and gave up before); putprev: the new value mentions the old version.      *)
 EXTENDS TraceLib
 CONSTANT Bound
 VARIABLE l
 Ev == Trace[l]
 Ok(e) == /\ e.stall_ms > 150 \/ e.late_ms <= Bound
-         /\ e.res = (IF e.change = "put" THEN "nil" ELSE "notexist")
+         /\ e.res = (IF e.change \in {"put", "putprev"} THEN "nil" ELSE "notexist")
 OkDeadline(e) ==
     IF e.change = "none"
     THEN /\ e.res = "ctxerr" /\ e.ctxdone
